@@ -613,7 +613,7 @@ func (r *Router) receiveServerIdentity(c Conn) (*ServerIdentity, error) {
 				return nil, xerrors.Errorf("decoding key: %v", err)
 			}
 
-			if !pub.Equal(dst.Public) {
+			if dst.Public == nil || !pub.Equal(dst.Public) {
 				return nil, xerrors.New("mismatch between certificate CommonName and ServerIdentity.Public")
 			}
 			log.Lvl4(r.address, "Public key from CommonName and ServerIdentity match:", pub)
